@@ -524,6 +524,36 @@ impl PartialOrd for YEdge {
     }
 }
 
+impl YEdge {
+    /// Gradient used to order edges that meet at the sweep position. A vertical edge is
+    /// represented by its upper end point, so any edge it meets there lies above it.
+    fn tie_grad(&self) -> OFlt<f64> {
+        let g = self.grad();
+        if g == OFlt(f64::INFINITY) {
+            OFlt(f64::NEG_INFINITY)
+        } else {
+            g
+        }
+    }
+
+    /// Determines whether some other active edge passes strictly between `p` and the upper
+    /// end point `rp` of a vertical edge leaving `p`.
+    fn vertical_is_crossed(
+        active_edges: &BTreeSet<Rc<RefCell<YEdge>>>,
+        skip: Option<&Rc<RefCell<YEdge>>>,
+        p: Pt,
+        rp: Pt,
+    ) -> bool {
+        rp.x() == p.x()
+            && active_edges.iter().any(|a| {
+                !skip.map_or(false, |s| Rc::ptr_eq(a, s)) && {
+                    let y = a.borrow().y_at(p.x(), true);
+                    p.y() < y && y < rp.y()
+                }
+            })
+    }
+}
+
 impl Ord for YEdge {
     fn cmp(&self, other: &Self) -> Ordering {
         let x = self.shared_x.borrow().clone();
@@ -532,7 +562,7 @@ impl Ord for YEdge {
         }
         self.y_at(x, true)
             .total_cmp(&other.y_at(x, true))
-            .then(self.grad().total_cmp(&other.grad()))
+            .then(self.tie_grad().total_cmp(&other.tie_grad()))
     }
 }
 
@@ -590,6 +620,13 @@ fn handle_next(
                 Ordering::Greater => (lp2, top, lp1, bot),
                 Ordering::Equal => return Err(TriangulationError::Overlap(ptype, p)),
             };
+
+            // A vertical outgoing edge must not be crossed by an active edge.
+            for rp in [lp_bot.borrow().p, lp_top.borrow().p] {
+                if YEdge::vertical_is_crossed(&y_struct.active_edges, None, p, rp) {
+                    return Err(TriangulationError::Overlap(ptype, p));
+                }
+            }
 
             let bot = Rc::new(RefCell::new(bot));
             let top = Rc::new(RefCell::new(top));
@@ -711,6 +748,10 @@ fn handle_next(
             } else {
                 lp2
             };
+            // A vertical outgoing edge must not be crossed by another active edge.
+            if YEdge::vertical_is_crossed(&y_struct.active_edges, Some(edge), p, rlp.borrow().p) {
+                return Err(TriangulationError::Overlap(ptype, p));
+            }
             let mut eb = edge.borrow_mut();
             let from_tail = !eb.bof_in_interval;
             eb.backchain.borrow_mut().append(p, from_tail);
